@@ -240,6 +240,7 @@ def r7(tree, rep):
 def run(tree, rep, tier):
     from .. import round9 as _r9
     _r9.app_not_called_mid_transition(tree, rep, "C14.R9")
+    _r9.numeric_phase_pattern_anchored(tree, rep, "C14.R10")
     r6(tree, rep)
     from .. import sharedstate
     sharedstate.check(tree, rep, "C14.R0")
@@ -293,3 +294,5 @@ MUTANTS.append(Mutant("del-M-S4-got_mailbox", _M, "    S4.upon(got_mailbox, ente
 MUTANTS.append(Mutant("dequeue-del-absent-key", _M, "        self._pending_outbound.pop(phase, None)", "        del self._pending_outbound[phase]", "C14.R8", "seed C14-17"))
 
 MUTANTS.append(Mutant("status-callout-before-lost", "src/wormhole/_rendezvous.py", "        was_open = bool(self._ws)\n        self._ws = None\n", "        was_open = bool(self._ws)\n        self._ws = None\n        self._evolve_status(mailbox_connection=Connecting(self._url, self._reactor.seconds()))\n", "C14.R9", "seed C14-18"))
+
+MUTANTS.append(Mutant("numeric-phase-open-ended", "src/wormhole/_boss.py", "        elif re.search(r'^\\d+$', phase):", "        elif re.match(r'\\d+', phase):", "C14.R10", "seed C14-21"))
